@@ -460,6 +460,24 @@ class Check(Property):
                                     v.append(f"C16 {name}, {pos} operand {t.units} (autoconvert={auto}): {g1}; with the operand re-expressed in {t_alt.units}: {g2}{known}")
             except Exception as exc:  # noqa: BLE001
                 v.append(f"C16 probe array products raised {type(exc).__name__}: {exc}")
+            # the variance of temperatures on an offset scale has no unit (degC ** 2 relates to nothing): refused, for every axis /
+            # ddof form and its nan-variant; on delta and absolute scales it is the square of the unit and follows re-expression
+            try:
+                r = regs.fresh("float")
+                tc = r.Quantity(np.array([[10.0, 20.0, 40.0], [5.0, np.nan, 15.0]]), "degC")
+                for name, fn in (("np.var", lambda q: np.var(q[0])), ("np.var(axis=0)", lambda q: np.var(q[:, ::2], axis=0)),
+                                 ("np.var(ddof=1)", lambda q: np.var(q[0], ddof=1)), ("np.nanvar", lambda q: np.nanvar(q))):
+                    for un in ("degC", "degF"):
+                        try:
+                            res = fn(tc.to(un))
+                            v.append(f"C16 {name} of temperatures in {un} returned {res!r} (offset units are refused where the operation is ambiguous)")
+                        except pint.errors.OffsetUnitCalculusError:
+                            pass
+                    a_, b_ = fn(tc.to("kelvin")), fn(tc.to("degree_Rankine"))
+                    if str(a_.units) != "kelvin ** 2" or not np.allclose(a_.magnitude, b_.to("kelvin ** 2").magnitude, rtol=1e-9, equal_nan=True):
+                        v.append(f"C16 {name} of the same temperatures in kelvin {a_!r} and in degree_Rankine {b_!r}")
+            except Exception as exc:  # noqa: BLE001
+                v.append(f"C16 probe variance raised {type(exc).__name__}: {exc}")
         return v
 
     def oracle(self, c):
